@@ -173,7 +173,7 @@ theorem blank_chain (T : Table) (s : MState) (c0 : SChar) (tl : List SChar) (nam
   refine ⟨{ pre := (markLc (s.rest.take (skipLen s.rest))).reverse ++ s.pre,
             rest := spliceChars a c0 ++ tl.drop ((lexTok (c0 :: tl)).len - 1),
             st := (trans s.st (.word (some name) asg)).onSub,
-            subs := s.subs + 1, toks := s.toks }, ?_, rfl, rfl⟩
+            subs := s.subs + 1, toks := s.toks, hd := s.hd }, ?_, rfl, rfl⟩
   unfold step
   simp only [hdrop, hkind, hsub, hel]
 
@@ -212,7 +212,7 @@ theorem only_eligible (T : Table) (s s' : MState) (h : step T s = some s') :
     unfold MState.text
     rw [hpre, hrest]
     have h1 : s.rest = s.rest.take (skipLen s.rest) ++ (c0 :: tl) := by rw [← hdrop, List.take_append_drop]
-    have h2 : tl = tl.take ((lexTok (c0 :: tl)).len - 1) ++ tl.drop ((lexTok (c0 :: tl)).len - 1) :=
+    have h2 : tl = tl.take (spanLen s c0 tl) ++ tl.drop (spanLen s c0 tl) :=
       (List.take_append_drop ..).symm
     conv => rhs; rw [h1]
     simp only [List.reverse_append, List.reverse_cons, List.reverse_reverse, List.map_append,
@@ -350,7 +350,7 @@ theorem model_eq_spec_partial (T : Table) (line : List Char)
     (hA : Agree T (fuelFor T line) (init line) { rest := line }) :
     substText T line = substLine T line := by
   have hs : Sim (init line) ({ rest := line } : HState) := by
-    refine ⟨?_, rfl, rfl, rfl⟩
+    refine ⟨?_, rfl, rfl, rfl, rfl⟩
     simp only [init, plain, chars, List.map_map]
     exact (List.map_id' _).symm
   obtain ⟨hr, ho, _, _⟩ := sim_run (fuelFor T line) hs hA
@@ -364,7 +364,7 @@ theorem model_eq_spec_checked (T : Table) (line : List Char)
   model_eq_spec_partial T line (agree_of_agreeB _ hb)
 
 theorem sim_init (line : List Char) : Sim (init line) ({ rest := line } : HState) := by
-  refine ⟨?_, rfl, rfl, rfl⟩
+  refine ⟨?_, rfl, rfl, rfl, rfl⟩
   simp only [init, plain, chars, List.map_map]
   exact (List.map_id' _).symm
 
